@@ -26,6 +26,7 @@ pre-existing file content (identical, modified, truncated, longer, anything), ev
 -/
 import Rustic.Model.Restore
 import Rustic.Lemmas.RestoreWalk
+import Rustic.Lemmas.RestoreTasks
 namespace Rustic.Props.C14
 open Rustic.Restore
 
@@ -135,6 +136,57 @@ theorem accepted_by_size_and_mtime_witness :
 
 example : restoreFile { verify := false, sparse := false } (some [9, 9, 9]) true [[1], [2]] = some [1, 2] := by decide
 example : restoreFile { verify := true, sparse := true } (some [1, 7, 7, 7]) false [[1, 2], [0, 0]] = some [1, 2, 0, 0] := by decide
+
+/-! ### contents, writer task by writer task (`Model/RestoreTasks.lean`) -/
+
+/-- **restore_tasks_eq_segments.**  `restore_contents` as it is written — writer tasks only for the blobs NOT found in the
+existing file, the file created / truncated / sized inside the first task, holes skipped by the task — produces, for every
+prior content, blob list and option set, exactly the file of the segment model (tasks run in blob order). -/
+theorem restore_tasks_eq_segments (o : Opts) (old : Option Bytes) (mtimeEq : Bool) (blobs : List Bytes) :
+    restoreFileTasks o old mtimeEq blobs = restoreFile o old mtimeEq blobs :=
+  restoreFileTasks_eq o old mtimeEq blobs
+
+/-- `restore_exact` for the task-level model -/
+theorem restore_exact_tasks (o : Opts) (old : Option Bytes) (mtimeEq : Bool) (blobs : List Bytes)
+    (hcheck : o.verify = true ∨ mtimeEq = false ∨ (matchingFile old blobs.flatten.length).isSome = false) :
+    restoreFileTasks o old mtimeEq blobs = some blobs.flatten := by
+  rw [restore_tasks_eq_segments]; exact restore_exact o old mtimeEq blobs hcheck
+
+/-- **allocating_task_exists.**  A non-empty file that has to be created or resized (no existing file of the snapshot's
+size) gets at least one writer task — the one that creates and sizes it — whatever its blobs are, all-zero blobs under
+`sparse` included: a hole is skipped INSIDE its task, after the allocation.  (The seeded change C14-2 skipped holes before
+the task is spawned: an all-zero file then has no task and is never created.) -/
+theorem allocating_task_exists (o : Opts) (blobs : List Bytes) (h : blobs.flatten.length ≠ 0) :
+    tasks o true none 0 blobs ≠ [] :=
+  tasks_ne_nil_of_fresh o true blobs 0 h
+
+/-- **restore_any_task_order.**  The writer tasks of a file run on a thread pool; whichever order they run in (`ts` = any
+permutation of the file's tasks; the first one to run allocates), a non-empty file ends as the snapshot's content — under
+the statement's clause (verification on, or size/mtime differing).  With `restore_tasks_eq_segments` this discharges the
+former assumption "writes go to disjoint ranges, so the result is the concatenation of the segments whatever the thread
+order" (`tasks_pairwise`, `writeAt_comm`, `foldl_perm_comm`). -/
+theorem restore_any_task_order (o : Opts) (old : Option Bytes) (mtimeEq : Bool) (blobs : List Bytes) (ts : List Task)
+    (hp : ts.Perm (tasks o (matchingFile old blobs.flatten.length).isNone (matchingFile old blobs.flatten.length) 0 blobs))
+    (h0 : blobs.flatten.length ≠ 0)
+    (hcheck : o.verify = true ∨ mtimeEq = false ∨ (matchingFile old blobs.flatten.length).isSome = false) :
+    runTasks old (matchingFile old blobs.flatten.length).isNone blobs.flatten.length ts = some blobs.flatten := by
+  rw [runTasks_any_order o _ _ blobs old ts hp]
+  have h := restore_exact_tasks o old mtimeEq blobs hcheck
+  unfold restoreFileTasks at h
+  simp only [h0, if_false] at h
+  have h1 : ¬ (o.verify = false ∧ (matchingFile old blobs.flatten.length).isSome = true ∧ mtimeEq = true) := by
+    rintro ⟨a, b, c⟩
+    rcases hcheck with h | h | h
+    · rw [h] at a; cases a
+    · rw [h] at c; cases c
+    · rw [h] at b; cases b
+  simpa only [h1, if_false] using h
+
+/-- an all-zero file, sparse restore, no destination file: one hole task per blob, nothing is written, the file exists with
+the right length; without any task (`runTasks … []`) the destination would stay absent -/
+example : (tasks { verify := true, sparse := true } true none 0 [[0, 0], [0]]).map (·.hole) = [true, true] ∧
+    restoreFileTasks { verify := true, sparse := true } none false [[0, 0], [0]] = some [0, 0, 0] ∧
+    runTasks none true 3 [] = none := by decide
 
 /-! ### confinement -/
 
@@ -249,6 +301,54 @@ theorem mergewalk_classes (c : Cfg P) (L : LawfulCmp c.cmp) (ds : List (DEnt P))
     obtain ⟨d, hd', n, hn', h1, h2, h3⟩ := walk_matched_sound c ds ns p h
     exact ⟨d, hd', n, hn', h1, by rw [← (L.eq_iff _ _).1 h2]; exact h1, h3⟩
 
+theorem mem_removedOf {evs : List (Ev P)} {p : P} (h : p ∈ removedOf evs) : ∃ isDir, Ev.additional p isDir true ∈ evs := by
+  induction evs with
+  | nil => cases h
+  | cons e rest ih =>
+    cases e with
+    | additional q d r =>
+      cases r with
+      | true =>
+        rcases List.mem_cons.1 h with h | h
+        · exact ⟨d, by rw [h]; exact List.mem_cons_self⟩
+        · obtain ⟨d', hd'⟩ := ih h; exact ⟨d', List.mem_cons_of_mem _ hd'⟩
+      | false => obtain ⟨d', hd'⟩ := ih h; exact ⟨d', List.mem_cons_of_mem _ hd'⟩
+    | matched q => obtain ⟨d', hd'⟩ := ih h; exact ⟨d', List.mem_cons_of_mem _ hd'⟩
+    | skipped q => obtain ⟨d', hd'⟩ := ih h; exact ⟨d', List.mem_cons_of_mem _ hd'⟩
+    | node q k e => obtain ⟨d', hd'⟩ := ih h; exact ⟨d', List.mem_cons_of_mem _ hd'⟩
+
+/-- **delete_spares_snapshot_paths.**  `--delete` never hands a snapshot path to `remove_dir` / `remove_file` unless the
+entry there has a type the node does not fit (a file in place of a directory, …, which is then re-created): for every
+destination listing and node stream sorted by the comparison the walk uses (a strict total order), every removed path has
+no node, or a node of a mismatching type.  The hypothesis "sorted by the SAME comparison" is what the seeded change C14-3
+breaks (byte-wise comparison of streams that are sorted component-wise) — witness below. -/
+theorem delete_spares_snapshot_paths (c : Cfg P) (L : LawfulCmp c.cmp) (ds : List (DEnt P)) (ns : List (NEnt P))
+    (hd : SortedD c ds) (hn : SortedN c ns) :
+    ∀ p ∈ removedOf (walk c ds ns),
+      (∀ n ∈ ns, n.path ≠ p) ∨ (∃ n ∈ ns, ∃ d ∈ ds, n.path = p ∧ d.path = p ∧ mismatch n.kind d.kind = true) := by
+  intro p hp
+  obtain ⟨isDir, h⟩ := mem_removedOf hp
+  exact (mergewalk_classes c L ds ns hd hn).1 p isDir true h
+
+/-- **delete_spares_hidden_snapshot_paths.**  The entries `--delete` removes *implicitly* — those below a removed directory,
+which the walk never visits (`skip_current_dir`) — are no snapshot paths either, provided the node stream is a tree walk:
+above every node lies a directory node (`hparent`: a node below the destination directory `d` ⇒ a directory node at `d`'s
+path; `NodeStreamer` yields a directory before its content).  Together with `delete_spares_snapshot_paths`: with sorted
+streams no snapshot path whose entry fits the node's type is removed, directly or with a directory above it. -/
+theorem delete_spares_hidden_snapshot_paths (c : Cfg P) (L : LawfulCmp c.cmp) (ds : List (DEnt P)) (ns : List (NEnt P))
+    (hd : SortedD c ds) (hn : SortedN c ns)
+    (hparent : ∀ n ∈ ns, ∀ d ∈ ds, c.under d.path n.path = true → ∃ m ∈ ns, m.path = d.path ∧ m.kind = .dir) :
+    ∀ q, Ev.skipped q ∈ walk c ds ns → ∀ n ∈ ns, n.path ≠ q := by
+  intro q hq n hn' hnq
+  obtain ⟨d, hdm, hk, hu, r, hadd⟩ := walk_skipped_origin c ds ns q hq
+  obtain ⟨m, hm, hmp, hmk⟩ := hparent n hn' d hdm (by rw [hnq]; exact hu)
+  rcases (mergewalk_classes c L ds ns hd hn).1 d.path true r hadd with h | ⟨n', hn'', d', hd', h1, h2, h3⟩
+  · exact h m hm hmp
+  · have e1 : n' = m := sorted_path_unique L (fun x : NEnt P => x.path) hn n' hn'' m hm (h1.trans hmp.symm)
+    have e2 : d' = d := sorted_path_unique L (fun x : DEnt P => x.path) hd d' hd' d hdm h2
+    subst e1; subst e2
+    simp [mismatch, hmk, hk] at h3
+
 /-- non-vacuity: paths are numbers, the children of directory `d` are `10·d … 10·d+9`.  Destination: dir 1 (with 10, 11),
 file 2, file 3; snapshot: file 2, dir 3, file 4; `--delete`. -/
 def exCfg (delete : Bool) : Cfg Nat :=
@@ -268,6 +368,25 @@ example : LawfulCmp (exCfg true).cmp :=
 
 example : SortedD (exCfg true) [⟨1, .dir⟩, ⟨2, .file⟩, ⟨3, .file⟩] ∧ SortedN (exCfg true) [⟨2, .file⟩, ⟨3, .dir⟩, ⟨4, .file⟩] := by
   simp [SortedD, SortedN, exCfg, Nat.compare_eq_lt]
+
+/-- non-vacuity of `delete_spares_hidden_snapshot_paths`: destination directory 1 (holding 10) is additional, 10 is never
+visited; the tree-walk hypothesis holds for the stream [2] -/
+example : Ev.skipped 10 ∈ walk (exCfg true) [⟨1, .dir⟩, ⟨10, .file⟩] [⟨2, .file⟩] ∧
+    (∀ n ∈ [(⟨2, .file⟩ : NEnt Nat)], ∀ d ∈ [(⟨1, .dir⟩ : DEnt Nat), ⟨10, .file⟩], (exCfg true).under d.path n.path = true →
+      ∃ m ∈ [(⟨2, .file⟩ : NEnt Nat)], m.path = d.path ∧ m.kind = .dir) := by
+  constructor
+  · simp [walk, existingEvs, skipSplit, exCfg, compare, compareOfLessAndEq]
+  · simp [exCfg]
+
+/-- Witness for the sortedness hypothesis of `delete_spares_snapshot_paths` (the seeded change C14-3): directory 1 holds
+10 and 11, file 2 is its sibling; listing and stream are in walk order (1, 10, 11, 2 — "`a/keep`, `a/notes`, `a.txt`"), but
+the walk compares with an order they are NOT sorted by (here numeric: 2 < 10).  Destination = snapshot + the extra entry
+11: with `--delete` the walk removes 11 **and the snapshot file 2**. -/
+example : removedOf (walk (exCfg true) [⟨1, .dir⟩, ⟨10, .file⟩, ⟨11, .file⟩, ⟨2, .file⟩] [⟨1, .dir⟩, ⟨10, .file⟩, ⟨2, .file⟩]) = [11, 2] ∧
+    ¬ SortedD (exCfg true) [⟨1, .dir⟩, ⟨10, .file⟩, ⟨11, .file⟩, ⟨2, .file⟩] := by
+  constructor
+  · simp [walk, existingEvs, skipSplit, mismatch, exCfg, compare, compareOfLessAndEq, removedOf]
+  · simp [SortedD, exCfg, Nat.compare_eq_lt]
 
 end walk
 
@@ -298,6 +417,11 @@ def exFiles : List (List Blob) :=
 
 example : toPacks (build exFiles) = [7, 9] ∧ packReads 0 1000 (build exFiles) = [7, 9] ∧
     readsOf (packInfos 0 10 (build exFiles)) = [.pack 7 0 40, .file 0 8 8, .pack 9 0 40] := by decide
+
+/-- the first blob of pack 7 (lowest offset) is found in the existing file, a later blob of the same pack is not: the pack is
+still read and therefore in `to_packs()` (the seeded change C16-3 looked at the first entry of each pack only) -/
+example : toPacks (build [[⟨7, ⟨0, 40, 8⟩, true⟩, ⟨7, ⟨40, 40, 8⟩, false⟩, ⟨7, ⟨80, 40, 8⟩, true⟩]]) = [7] ∧
+    packReads 0 1000 (build [[⟨7, ⟨0, 40, 8⟩, true⟩, ⟨7, ⟨40, 40, 8⟩, false⟩, ⟨7, ⟨80, 40, 8⟩, true⟩]]) = [7] := by decide
 
 end plan
 
